@@ -183,6 +183,27 @@ Proof.
   - apply IH; [|assumption]. apply bstep_ok. assumption.
 Qed.
 
+Lemma bump_ok : forall l fs, snd (pa_bump l fs) <= fst (pa_bump l fs).
+Proof.
+  intros. unfold pa_bump. apply bfold_ok. cbn [fst snd]. apply next_of_fsize_ok.
+Qed.
+
+(** the repaired start-up (d99b876): every id of the rebuilt list ends below the allocator's next id *)
+Lemma now_next_ok : forall reus nx fs p, fs <= nx -> In p reus ->
+  p < (if pa_topb reus fs =? 0 then nx else N.max (nx + 1) (pa_topb reus fs))
+  /\ nx <= (if pa_topb reus fs =? 0 then nx else N.max (nx + 1) (pa_topb reus fs)).
+Proof.
+  intros reus nx fs p Hf A. unfold pa_topb.
+  destruct (N.leb_spec fs p) as [Hp|Hp].
+  - assert (B : In p (filter (fun q => fs <=? q) reus)) by (apply filter_In; split; [assumption|apply N.leb_le; assumption]).
+    pose proof (top_gt _ p B) as C. destruct (N.eqb_spec (pa_top (filter (fun q => fs <=? q) reus)) 0); lia.
+  - destruct (N.eqb_spec (pa_top (filter (fun q => fs <=? q) reus)) 0); lia.
+Qed.
+
+Lemma now_next_ge : forall reus nx fs,
+  nx <= (if pa_topb reus fs =? 0 then nx else N.max (nx + 1) (pa_topb reus fs)).
+Proof. intros. destruct (N.eqb_spec (pa_topb reus fs) 0); lia. Qed.
+
 Lemma heap_below : forall l fs p, In (RNewHeap p) l -> p < fst (pa_bump l fs).
 Proof.
   intros. unfold pa_bump. apply heap_rec_below; [|assumption]. cbn [fst snd]. apply next_of_fsize_ok.
@@ -424,9 +445,11 @@ Proof.
   destruct Hr as [Hr1 Hr2].
   destruct (pa_bump (firstn kept lg) fs) as [nx' fs'] eqn:EB. cbn [fst] in *.
   rewrite forallb_forall in Hown.
-  assert (Hbre : forall p, In p reus -> p < (if fx then N.max nx' (pa_top reus) else nx')).
+  assert (Hfs : fs' <= nx') by (pose proof (bump_ok (firstn kept lg) fs) as B; rewrite EB in B; exact B).
+  assert (Hbre : forall p, In p reus ->
+            p < (if fx then (if pa_topb reus fs' =? 0 then nx' else N.max (nx' + 1) (pa_topb reus fs')) else nx')).
   { intros p A. destruct fx.
-    - pose proof (top_gt reus p A). lia.
+    - apply (now_next_ok reus nx' fs' p Hfs A).
     - destruct Hreu as [Hreu|Hreu]; [discriminate|]. rewrite forallb_forall in Hreu.
       apply Hr2 in A. apply Hreu in A. lia. }
   split; [|exact Hr2].
@@ -440,7 +463,7 @@ Proof.
   - intros q _ [].
   - intros q [].
   - intros q A B. rewrite lset_dealloc in A. apply filter_In in B. destruct B as [B _]. apply Hr2 in A. apply (i_ls_iu0 q A B).
-  - intros q A. apply Hown in A. destruct fx; lia.
+  - intros q A. apply Hown in A. pose proof (now_next_ge reus nx' fs'). destruct fx; lia.
   - exact Hbre.
   - intros q [].
   - intros q [].
